@@ -113,7 +113,7 @@ def main():
     cases, impl, model = [], [], []
     fails = []
     try:
-        vlib.build_coq(["Extract/Dispatch.vo"])
+        vlib.build_coq(["Extract/DispatchS.vo"])
         vlib.build_model()
         vlib.build_harness()
         rng = random.Random(a.seed)
